@@ -24,6 +24,7 @@ KNOWN_RULES = [
     (r"DUP-TEXT", r"(.*,)?foreign-membership(,.*)?", "C13-dup-foreign-membership"),
     (r"NOT-FINDABLE", r"nameless", "C13-copy-nameless-shortname"),
     (r"VALIDATE", r"(.*,)?name-too-long(,.*)?", "C13-copy-name-too-long"),
+    (r"NOT-FINDABLE", r"duplicate-path", "C13-copy-duplicate-path-inherited"),
 ]
 
 
